@@ -174,12 +174,23 @@ def inverse_topology(outer, update, topology, inverse=None, multi_updates=True):
             else:
                 for child, child_update in update.items():
                     inner = normalize_path(outer + path + (child,))
+                    # merge with what other ports of the process have
+                    # already routed to this child, as the named ports do
                     if isinstance(child_update, dict):
+                        merge = (
+                            deep_merge_multi_update if multi_updates
+                            else deep_merge)
                         inverse = update_in(
                             inverse,
                             inner,
-                            lambda current: deep_merge(
+                            lambda current: merge(
                                 current, child_update))
+                    elif multi_updates and inner:
+                        inverse = update_in(
+                            inverse,
+                            inner[:-1],
+                            lambda current: deep_merge_multi_update(
+                                current, {inner[-1]: child_update}))
                     else:
                         assoc_path(inverse, inner, child_update)
 
